@@ -262,77 +262,90 @@ func ruleSweepStop(c *Ctx) {
 			}
 			done = true
 			lfg := newFlowGraph(finfo, lit.Body)
-			// the stop test: a condition comparing the deadline with now whose true edge returns false
-			okStop, okCollect := false, false
-			for _, b := range lfg.G.Blocks {
-				cond, _ := lfg.condOf(b)
-				if cond == nil {
-					continue
+			// the stop test, as a scenario: the atom "this entry's deadline is in the future" is any comparison of
+			// an Expires() value with a value derived from now (or h.expires.After/Before(now)), wherever it stands
+			// in a condition. With the atom true no entry is collected and the scan is not continued; with the atom
+			// false the entry can be collected.
+			isExpiresCall := func(x ast.Expr) bool {
+				call, ok := ast.Unparen(x).(*ast.CallExpr)
+				if !ok {
+					return false
 				}
-				// the test compares an entry's deadline with now; in whichever form it is written, one successor
-				// is the "deadline still in the future" side and the other the "due" side
-				recognised, futureOnTrue := false, false
-				isExpiresCall := func(x ast.Expr) bool {
-					call, ok := ast.Unparen(x).(*ast.CallExpr)
-					if !ok {
-						return false
-					}
-					f := callee(finfo, call)
-					return f != nil && f.Name() == "Expires"
-				}
-				switch e := ast.Unparen(cond).(type) {
+				f := callee(finfo, call)
+				return f != nil && f.Name() == "Expires"
+			}
+			// futureAtom: 'T' the expression means "deadline in the future", 'F' it means "due", 0 not the test
+			futureAtom := func(x ast.Expr) byte {
+				switch e := ast.Unparen(x).(type) {
 				case *ast.BinaryExpr:
 					switch {
 					case (e.Op == token.LSS || e.Op == token.LEQ) && isExpiresCall(e.Y) && derivedFrom(finfo, fn, e.X, nowObj):
-						// now < deadline (future) / now <= deadline (future)
-						recognised, futureOnTrue = true, true
+						return 'T'
 					case (e.Op == token.GTR || e.Op == token.GEQ) && isExpiresCall(e.X) && derivedFrom(finfo, fn, e.Y, nowObj):
-						// deadline > now
-						recognised, futureOnTrue = true, true
+						return 'T'
 					case (e.Op == token.LEQ || e.Op == token.LSS) && isExpiresCall(e.X) && derivedFrom(finfo, fn, e.Y, nowObj):
-						// deadline <= now: due
-						recognised, futureOnTrue = true, false
+						return 'F'
 					case (e.Op == token.GEQ || e.Op == token.GTR) && isExpiresCall(e.Y) && derivedFrom(finfo, fn, e.X, nowObj):
-						// now >= deadline: due
-						recognised, futureOnTrue = true, false
+						return 'F'
 					}
 				case *ast.CallExpr:
-					// h.expires.After(now): future; h.expires.Before(now): due
 					if f := callee(finfo, e); f != nil && len(e.Args) == 1 && derivedFrom(finfo, fn, e.Args[0], nowObj) {
 						switch f.Name() {
 						case "After":
-							recognised, futureOnTrue = true, true
+							return 'T'
 						case "Before":
-							recognised, futureOnTrue = true, false
+							return 'F'
 						}
 					}
 				}
-				if !recognised {
-					continue
+				return 0
+			}
+			hasAtom := false
+			ast.Inspect(lit.Body, func(y ast.Node) bool {
+				if e, ok := y.(ast.Expr); ok && futureAtom(e) != 0 {
+					hasAtom = true
 				}
-				futureSucc, dueSucc := b.Succs[0], b.Succs[1]
-				if !futureOnTrue {
-					futureSucc, dueSucc = dueSucc, futureSucc
-				}
-				isAppend := func(l Loc) bool {
-					call, ok := l.Node.(*ast.CallExpr)
-					if !ok {
-						return false
+				return true
+			})
+			scen := func(future bool) func(e ast.Expr) byte {
+				return func(e ast.Expr) byte {
+					switch futureAtom(e) {
+					case 'T':
+						if future {
+							return '1'
+						}
+						return '0'
+					case 'F':
+						if future {
+							return '0'
+						}
+						return '1'
 					}
-					id, ok := ast.Unparen(call.Fun).(*ast.Ident)
-					return ok && id.Name == "append"
+					return '?'
 				}
-				isContinue := func(l Loc) bool {
-					r, ok := l.Node.(*ast.ReturnStmt)
-					return ok && (len(r.Results) != 1 || boolConst(finfo, r.Results[0]) != '0')
-				}
-				// future side: nothing is collected and the scan stops (every return is `false`)
-				collectsFuture, _ := reachBlockAvoiding2(lfg, futureSucc, isAppend)
-				continuesFuture, _ := reachBlockAvoiding2(lfg, futureSucc, isContinue)
+			}
+			isAppendNode := func(l Loc) bool {
+				hit := false
+				inspectNoLit(l.Node, func(y ast.Node) bool {
+					if call, ok := y.(*ast.CallExpr); ok {
+						if id, ok := ast.Unparen(call.Fun).(*ast.Ident); ok && id.Name == "append" {
+							hit = true
+						}
+					}
+					return true
+				})
+				return hit
+			}
+			isContinue := func(l Loc) bool {
+				r, ok := l.Node.(*ast.ReturnStmt)
+				return ok && (len(r.Results) != 1 || boolConst(finfo, r.Results[0]) != '0')
+			}
+			okStop, okCollect := false, false
+			if hasAtom {
+				collectsFuture, _ := lfg.Reach(PathQuery{Correlate: true, Atom: scen(true), Target: isAppendNode})
+				continuesFuture, _ := lfg.Reach(PathQuery{Correlate: true, Atom: scen(true), Target: isContinue})
 				okStop = !collectsFuture && !continuesFuture
-				// due side: the entry is collected
-				reach, _ := reachBlockAvoiding2(lfg, dueSucc, isAppend)
-				okCollect = reach
+				okCollect, _ = lfg.Reach(PathQuery{Correlate: true, Atom: scen(false), Target: isAppendNode})
 			}
 			c.check(okStop && okCollect, name+"/stop-at-first-future-deadline", lit.Pos(),
 				"the callback returns false at the first deadline in the future and collects every earlier entry", "the sweeper's callback does not stop at the first future deadline / does not collect due entries: objects expire early or never")
@@ -340,6 +353,71 @@ func ruleSweepStop(c *Ctx) {
 		})
 		if !done {
 			c.bad(name+"/callback", fn.Decl.Pos(), "the function that iterates the expiry index has no collecting callback")
+		}
+		// the stop at the first future deadline ends the scan of that one expiry index; the walk over the other
+		// collections goes on: the callback that contains the expiry scan (the one handed to the keyspace scan)
+		// does not return a value that depends on the expiry scan's result
+		if kind == "objects" {
+			ast.Inspect(fn.Decl.Body, func(x ast.Node) bool {
+				outer, ok := x.(*ast.FuncLit)
+				if !ok {
+					return true
+				}
+				// directly contains (not inside a nested literal... the nested literal is the argument) a ScanExpires call
+				var scan *ast.CallExpr
+				ast.Inspect(outer.Body, func(y ast.Node) bool {
+					if call, ok := y.(*ast.CallExpr); ok {
+						if f := callee(finfo, call); f != nil && isMethod(f, colPath, "Collection", "ScanExpires") && enclosingFuncLit(c.Program, call) == outer {
+							scan = call
+						}
+					}
+					return true
+				})
+				if scan == nil || outer.Type.Results == nil || len(outer.Type.Results.List) != 1 {
+					return true
+				}
+				// locals that receive the scan's result
+				fromScan := map[types.Object]bool{}
+				inspectNoLit(outer.Body, func(y ast.Node) bool {
+					if as, ok := y.(*ast.AssignStmt); ok && len(as.Rhs) == 1 && containsNode(as.Rhs[0], scan) {
+						for _, l := range as.Lhs {
+							if id, ok := ast.Unparen(l).(*ast.Ident); ok {
+								fromScan[finfo.ObjectOf(id)] = true
+							}
+						}
+					}
+					return true
+				})
+				var badRet *ast.ReturnStmt
+				inspectNoLit(outer.Body, func(y ast.Node) bool {
+					r, ok := y.(*ast.ReturnStmt)
+					if !ok {
+						return true
+					}
+					for _, res := range r.Results {
+						dep := containsNode(res, scan)
+						ast.Inspect(res, func(z ast.Node) bool {
+							if _, isLit := z.(*ast.FuncLit); isLit {
+								return false
+							}
+							if id, ok := z.(*ast.Ident); ok && fromScan[finfo.ObjectOf(id)] {
+								dep = true
+							}
+							return true
+						})
+						if dep {
+							badRet = r
+						}
+					}
+					return true
+				})
+				if badRet != nil {
+					c.bad(name+"/walk-continues", badRet.Pos(), "the walk over the collections is continued or stopped by the result of one collection's expiry scan, which is false as soon as that collection's next deadline lies in the future: a collection with a far deadline shields every collection after it from the sweeper, and their objects never expire")
+				} else {
+					c.ok(name+"/walk-continues", outer.Pos(), true, "whether the walk over the collections goes on does not depend on one collection's expiry scan")
+				}
+				return true
+			})
 		}
 	}
 	for _, k := range []string{"objects", "hooks"} {
@@ -380,4 +458,145 @@ func derivedFrom(info *types.Info, fn *FuncInfo, e ast.Expr, obj types.Object) b
 		return true
 	})
 	return res
+}
+
+func init() {
+	register(&Rule{ID: "R14.visibility-by-sweeper-only", Props: []string{"C19", "C01"}, Floor: 40,
+		Text: "whether a stored object is visible is decided by the indexes alone: in every command handler and the functions it reaches (internal/server), no branch condition depends on both the wall clock and an object's deadline (Object.Expires(), directly or through locals) — an object past its deadline stays visible to every access path until the sweeper removes it with a logged DEL, so GET, SCAN, COUNT, STATS and the searches agree at every instant (C19) and nothing disappears before its logged delete (C14). The sweeper (the functions that walk the expiry index) is the one place that compares the two",
+		Run:  ruleVisibilityBySweeper})
+}
+
+func ruleVisibilityBySweeper(c *Ctx) {
+	a := c.muLK()
+	if a.err != "" {
+		c.und("engine", 0, "%s", a.err)
+		return
+	}
+	ct := a.ct
+	seen := map[*Unit]bool{}
+	var units []*Unit
+	for _, cl := range ct.DT.Clauses {
+		for _, h := range ct.Handlers[cl] {
+			if u := a.lk.ofDecl[h]; u != nil {
+				for _, x := range a.lk.reachSync(u) {
+					if !seen[x] && x.Fn.Pkg.PkgPath == modPath+"/internal/server" {
+						seen[x] = true
+						units = append(units, x)
+					}
+				}
+			}
+		}
+	}
+	isClock := func(info *types.Info, n ast.Node) bool {
+		hit := false
+		ast.Inspect(n, func(x ast.Node) bool {
+			if call, ok := x.(*ast.CallExpr); ok {
+				f := callee(info, call)
+				if isFunc(f, "time", "Now") || isFunc(f, "time", "Since") || isFunc(f, "time", "Until") {
+					hit = true
+				}
+			}
+			return true
+		})
+		return hit
+	}
+	isDeadline := func(info *types.Info, n ast.Node) bool {
+		hit := false
+		ast.Inspect(n, func(x ast.Node) bool {
+			if call, ok := x.(*ast.CallExpr); ok {
+				if f := callee(info, call); f != nil && f.Name() == "Expires" && isMethod(f, modPath+"/internal/object", "Object", "Expires") {
+					hit = true
+				}
+			}
+			return true
+		})
+		return hit
+	}
+	n := 0
+	done := map[*FuncInfo]bool{}
+	for _, u := range units {
+		if done[u.Fn] {
+			continue
+		}
+		done[u.Fn] = true
+		info := u.Info()
+		// the sweeper: walks the expiry index
+		sweeper := false
+		ast.Inspect(u.Fn.Decl.Body, func(x ast.Node) bool {
+			if call, ok := x.(*ast.CallExpr); ok {
+				if f := callee(info, call); f != nil && f.Name() == "ScanExpires" {
+					sweeper = true
+				}
+			}
+			return true
+		})
+		if sweeper {
+			continue
+		}
+		taint := func(src func(*types.Info, ast.Node) bool) (map[types.Object]bool, func(ast.Node) bool) {
+			t := map[types.Object]bool{}
+			mentions := func(n ast.Node) bool {
+				if src(info, n) {
+					return true
+				}
+				hit := false
+				ast.Inspect(n, func(x ast.Node) bool {
+					if id, ok := x.(*ast.Ident); ok && t[info.ObjectOf(id)] {
+						hit = true
+					}
+					return true
+				})
+				return hit
+			}
+			for changed := true; changed; {
+				changed = false
+				ast.Inspect(u.Fn.Decl.Body, func(x ast.Node) bool {
+					as, ok := x.(*ast.AssignStmt)
+					if !ok || len(as.Lhs) != len(as.Rhs) {
+						return true
+					}
+					for i, l := range as.Lhs {
+						if id, ok := l.(*ast.Ident); ok {
+							if o := info.ObjectOf(id); o != nil && !t[o] && mentions(as.Rhs[i]) {
+								t[o] = true
+								changed = true
+							}
+						}
+					}
+					return true
+				})
+			}
+			return t, mentions
+		}
+		_, clock := taint(isClock)
+		_, deadline := taint(isDeadline)
+		n++
+		bad := 0
+		ast.Inspect(u.Fn.Decl.Body, func(x ast.Node) bool {
+			var cond ast.Expr
+			switch s := x.(type) {
+			case *ast.IfStmt:
+				cond = s.Cond
+			case *ast.ForStmt:
+				cond = s.Cond
+			case *ast.SwitchStmt:
+				cond = s.Tag
+			case *ast.CaseClause:
+				for _, e := range s.List {
+					if clock(e) && deadline(e) {
+						cond = e
+					}
+				}
+			}
+			if cond != nil && clock(cond) && deadline(cond) {
+				bad++
+				c.bad(funcName(u.Fn.Obj)+"→if "+exprStr(cond), cond.Pos(), "a command handler compares the wall clock with an object's deadline (%s): the object is treated as gone by this path while the indexes, counters and every other access path still hold it until the sweeper's logged DEL — the access paths disagree, and what a command sees depends on the instant it runs", exprStr(cond))
+			}
+			return true
+		})
+		if bad == 0 {
+			c.ok(funcName(u.Fn.Obj), u.Fn.Decl.Pos(), false, "no branch condition relates the clock to an object's deadline")
+		}
+	}
+	c.stat("handler_functions_scanned", n)
 }
